@@ -10,10 +10,20 @@ For a relocation type, `SPEC[(arch, name)]` gives
   decode(w,P) value designated by the relocated bytes, w = little-endian integer of the bytes
   mask        bits of w the relocation may modify
   pre         alignment facts about S and P the ISA requires (assumed; ppci asserts them)
+  endian      (optional, default 'little') byte order of the instruction word: `word(bytes, endian)`
+              turns the relocated bytes into the integer w that decode/mask talk about
 All functions run on plain ints and on symx proxies alike.
 Sources: RISC-V Unprivileged ISA 20191213 (ch. 2, 16.8), ARM ARM DDI0406C (A8.8.18 B, A8.8.25 BL,
 A8.8.64 LDR literal, A8.8.12 ADR, A5.2.4), Thumb: A8.8.18 T1/T2, A8.8.25 T1, A8.8.64 T1;
-Intel SDM vol. 2 (JMP/CALL/Jcc rel8/rel32, MOV r64, imm64).
+Intel SDM vol. 2 (JMP/CALL/Jcc rel8/rel32, MOV r64, imm64);
+AVR Instruction Set Manual (Atmel 0856: RJMP, RCALL, BRBS/BRBC, LDI); MSP430x1xx Family User's Guide
+SLAU049 (3.3 addressing modes, 3.4.6 jump format); MCS6500 Microcomputer Family Programming Manual
+(4.1 relative addressing, 5.3 absolute addressing); OpenRISC 1000 Architecture Manual 1.3 (l.j, l.jal,
+l.bf, l.bnf, l.movhi, l.ori; 3.2.2: big-endian); MIPS32 Architecture Vol. II (J, JAL); MicroBlaze Processor
+Reference Guide UG984 (IMM, BRI/BRLID/BEQI.., ADDIK; big-endian words); Xtensa ISA Reference Manual
+(formats RRI8, BRI8, BRI12, CALL, RI16 in the little-endian configuration; BEQ.., BEQZ/BNEZ, J, CALL0,
+L32R without the extended-L32R option); M68000 Family Programmer's Reference Manual (Bcc/BRA/BSR with
+32-bit displacement, 2.2.11 program counter indirect with displacement).
 """
 from symx.core import ite, sym_and
 from ref import bits as RB
@@ -24,6 +34,18 @@ def le(bs):
     for i, b in enumerate(bs):
         v = v | (b << (8 * i))
     return v
+
+
+def be(bs):
+    v = 0
+    for b in bs:
+        v = (v << 8) | b
+    return v
+
+
+def word(bs, endian="little"):
+    """integer value of the instruction word stored in the byte list bs"""
+    return be(bs) if endian == "big" else le(bs)
 
 
 def bits(w, hi, lo):
@@ -156,6 +178,98 @@ _add(X, "rel32", size=4, kind="pcrel", decode=lambda w, P: sext(w, 32), mask=M32
 _add(X, "abs32", size=4, kind="abs", decode=lambda w, P: w, mask=M32, pre=lambda S, P: True)
 _add(X, "jmp8", size=1, kind="branch", decode=lambda w, P: P + 1 + sext(w, 8), mask=0xFF, pre=lambda S, P: True)
 _add(X, "abs64", size=8, kind="abs", decode=lambda w, P: w, mask=(1 << 64) - 1, pre=lambda S, P: True)
+
+# ---- AVR (16-bit opcode words, little-endian in program memory; byte addresses here) ---------
+# RJMP 1100 kkkk kkkk kkkk / RCALL 1101 kkkk kkkk kkkk : PC <- PC + k + 1 (words), k signed 12 bit
+AVR = ("avr",)
+EVEN2 = lambda S, P: sym_and(S % 2 == 0, P % 2 == 0)
+_add(AVR, "12bit", size=2, kind="branch", decode=lambda w, P: P + 2 + (sext(bits(w, 11, 0), 12) << 1),
+     mask=0x0FFF, pre=EVEN2)
+# BRBS/BRBC 1111 0xkk kkkk ksss : PC <- PC + k + 1 (words), k signed 7 bit in bits 9..3
+_add(AVR, "7bit", size=2, kind="branch", decode=lambda w, P: P + 2 + (sext(bits(w, 9, 3), 7) << 1),
+     mask=0x03F8, pre=EVEN2)
+# LDI 1110 KKKK dddd KKKK : K = bits 11..8 : bits 3..0 ; lo8(x) = x & 0xFF, hi8(x) = (x >> 8) & 0xFF
+_avr_k = lambda w, P: (bits(w, 11, 8) << 4) | bits(w, 3, 0)
+_add(AVR, "ldilo", size=2, kind="lo", decode=_avr_k, mask=0x0F0F, pre=lambda S, P: P % 2 == 0,
+     expect=lambda S, A, P: (S + A) & 0xFF)
+_add(AVR, "ldihi", size=2, kind="hi", decode=_avr_k, mask=0x0F0F, pre=lambda S, P: P % 2 == 0,
+     expect=lambda S, A, P: ((S + A) >> 8) & 0xFF)
+
+# ---- MSP430 (16-bit words, little-endian) ---------------------------------------------------
+# jump format 001 CCC oooooooooo : PC <- PC + 2 + 2 * sext(offset10)
+_add(("msp430",), "rel10", size=2, kind="branch",
+     decode=lambda w, P: P + 2 + (sext(bits(w, 9, 0), 10) << 1), mask=0x03FF, pre=EVEN2)
+# extension word of the absolute (&ADDR) and immediate (#N) addressing modes: the 16-bit value itself
+_add(("msp430",), "abs16", size=2, kind="abs", decode=lambda w, P: w, mask=0xFFFF,
+     pre=lambda S, P: P % 2 == 0)
+
+# ---- MCS6500 ---------------------------------------------------------------------------------
+# relative addressing: the operand byte is a signed offset added to the PC after the operand fetch
+_add(("mcs6500",), "rel8", size=1, kind="branch", decode=lambda w, P: P + 1 + sext(w, 8), mask=0xFF,
+     pre=lambda S, P: True)
+# absolute addressing: 16-bit address, low byte first
+_add(("mcs6500",), "abs16", size=2, kind="abs", decode=lambda w, P: w, mask=0xFFFF, pre=lambda S, P: True)
+
+# ---- OpenRISC 1000 (big-endian 32-bit words) ------------------------------------------------
+ALIGN4 = lambda S, P: sym_and(S % 4 == 0, P % 4 == 0)
+# l.j/l.jal/l.bf/l.bnf: opcode(31..26) N(25..0); target = address of the jump + (sext(N) << 2)
+_add(("or1k",), "jump", size=4, endian="big", kind="branch",
+     decode=lambda w, P: P + (sext(bits(w, 25, 0), 26) << 2), mask=0x03FFFFFF, pre=ALIGN4)
+# 16-bit immediate K in bits 15..0 (l.ori, l.andi, l.addi ...): low / high half of the address
+_add(("or1k",), "OR32_CONST", size=4, endian="big", kind="lo", decode=lambda w, P: bits(w, 15, 0),
+     mask=0xFFFF, pre=lambda S, P: P % 4 == 0, expect=lambda S, A, P: (S + A) & 0xFFFF)
+_add(("or1k",), "OR32_CONSTH", size=4, endian="big", kind="hi", decode=lambda w, P: bits(w, 15, 0),
+     mask=0xFFFF, pre=lambda S, P: P % 4 == 0, expect=lambda S, A, P: ((S + A) >> 16) & 0xFFFF)
+
+# ---- MIPS32 (bi-endian architecture; ppci's mips target is the little-endian one) -----------
+# J/JAL: opcode(31..26) instr_index(25..0); target = (PC + 4)[31:28] : instr_index : 00, PC = address
+# of the jump (PC + 4 = its delay slot)
+_add(("mips",), "abs26", size=4, kind="branch",
+     decode=lambda w, P: (((P + 4) >> 28) << 28) | (bits(w, 25, 0) << 2), mask=0x03FFFFFF, pre=ALIGN4)
+
+# ---- MicroBlaze (big-endian words) ----------------------------------------------------------
+# IMM prefix (imm16 = upper half) followed by a type B instruction (imm16 = lower half); both imm16
+# fields are bits 15..0 of their word.  w = the two words as one 64-bit big-endian integer.
+_mb_imm32 = lambda w: (bits(w, 47, 32) << 16) | bits(w, 15, 0)
+# pc-relative branches: PC <- PC + imm32 where PC is the address of the branch itself (= P + 4)
+_add(("microblaze",), "R_MICROBLAZE_64_PCREL", size=8, endian="big", kind="branch",
+     decode=lambda w, P: (P + 4 + sext(_mb_imm32(w), 32)) & M32, mask=0x0000FFFF0000FFFF, pre=ALIGN4)
+_add(("microblaze",), "R_MICROBLAZE_64_ABS", size=8, endian="big", kind="abs",
+     decode=lambda w, P: _mb_imm32(w), mask=0x0000FFFF0000FFFF, pre=lambda S, P: P % 4 == 0)
+
+# ---- Xtensa (little-endian configuration, 24-bit instructions, byte-aligned) ----------------
+XT = ("xtensa",)
+# RRI8/BRI8: imm8 in bits 23..16; BEQ/BNE/...: target = PC + 4 + sext(imm8)
+_add(XT, "imm8", size=3, kind="branch", decode=lambda w, P: P + 4 + sext(bits(w, 23, 16), 8),
+     mask=0xFF0000, pre=lambda S, P: True)
+# BRI12: imm12 in bits 23..12; BEQZ/BNEZ/..: target = PC + 4 + sext(imm12)
+_add(XT, "bri12", size=3, kind="branch", decode=lambda w, P: P + 4 + sext(bits(w, 23, 12), 12),
+     mask=0xFFF000, pre=lambda S, P: True)
+# CALL format: offset in bits 23..6; J: target = PC + 4 + sext(offset18)
+_add(XT, "call18", size=3, kind="branch", decode=lambda w, P: P + 4 + sext(bits(w, 23, 6), 18),
+     mask=0xFFFFC0, pre=lambda S, P: True)
+# CALL0: target = ((PC >> 2) + sext(offset18) + 1) << 2
+_add(XT, "call0", size=3, kind="branch",
+     decode=lambda w, P: ((P >> 2) + sext(bits(w, 23, 6), 18) + 1) << 2,
+     mask=0xFFFFC0, pre=lambda S, P: S % 4 == 0)
+# L32R (RI16, imm16 in bits 23..8): address = ((PC + 3) & ~3) + ((imm16 - 2**16) << 2): the 16-bit word
+# offset is ONE-extended, the literal always lies before the instruction
+_add(XT, "ri16", size=3, kind="branch",
+     decode=lambda w, P: (((P + 3) >> 2) << 2) + ((bits(w, 23, 8) - (1 << 16)) << 2),
+     mask=0xFFFF00, pre=lambda S, P: S % 4 == 0)
+
+# ---- M68000 family (big-endian) -------------------------------------------------------------
+# Bcc/BRA/BSR with 8-bit displacement field 0xFF: a 32-bit displacement follows the opcode word;
+# target = (address of the opcode word + 2) + disp32 = address of the displacement field + disp32 (mod 2**32)
+_add(("m68k",), "branch_rel32", size=4, endian="big", kind="branch",
+     decode=lambda w, P: (P + sext(w, 32)) & M32, mask=M32, pre=EVEN2)
+# (d16,PC): effective address = address of the extension word + sext(d16)
+_add(("m68k",), "rel16", size=2, endian="big", kind="branch", decode=lambda w, P: P + sext(w, 16),
+     mask=0xFFFF, pre=lambda S, P: P % 2 == 0)
+
+# ISAs whose memory is big-endian.  ppci's generic data relocations absaddr16/32/64 store little-endian
+# words (its code generator refuses to emit them for big-endian targets), so they are not claimed there.
+BIG_ENDIAN = ("or1k", "microblaze", "m68k")
 
 
 def expected(spec, S, A, P):
